@@ -190,3 +190,32 @@ def check_C09(ctx):
                       "checked against AppendOnly (starts at or beyond the last durable root), truncation only by FlushRevert on the "
                       "writable store to a root end or 0, and an empty write log for every read-only entry point",
                       ASSUME_COMMON + ["the `programs' facet (all call paths) is a static claim TLC cannot decide; only executed paths are seen"])
+
+
+# ------------------------------------------------------------------- C16
+def check_C16(ctx):
+    for c in ["MC_Blocks_2.cfg", "MC_Blocks_3.cfg", "MC_Blocks_4.cfg", "MC_Blocks_1024.cfg"]:
+        ctx.model_check("MC_Blocks.tla", c, workers=4)
+    sizes = q(ctx, ["0-40", "41-70,1023-1026", "2047-2050,3071-3074"],
+              ["0-40", "41-100", "101-160", "1020-1030", "2040-2056", "3066-3080", "4095-4100,5119-5122"])
+    def one(i):
+        out = os.path.join(ctx.work, "enum-%d.ndjson" % i)
+        args = ["enum", "-seed", ctx.seed * 100 + i, "-sizes", sizes[i], "-out", out, "-reps", q(ctx, 3, 10)]
+        st, poisoned = ctx.drive(args)
+        return out, " ".join(map(str, [ctx.bin] + args)), st
+    with ThreadPoolExecutor(max_workers=8) as ex:
+        res = list(ex.map(one, range(len(sizes))))
+    def val(r):
+        return ctx.validate(r[0], {"C16"}, module="Trace_Blocks.tla", cfg="Trace_Blocks.cfg", cmdline=r[1])
+    with ThreadPoolExecutor(max_workers=8) as ex:
+        vres = list(ex.map(val, res))
+    ctx.traces = sum(r[2]["histories"] for r in res)
+    ctx.coverage_extra["drift_lines"] = sum(v["out"].count('"DRIFT"') for v in vres)
+    ctx.coverage_extra["sizes"] = sizes
+    return ctx.finish("model_checking",
+                      "exhaustive: Blocks.tla (transcribed determineBlocks / VisitItemsAscendBlockEx / VisitItemsRandom) for MaxBlockCnt in "
+                      "{2,3,4} with every n <= 25 and every permutation of <= 5 blocks, and for the real MaxBlockCnt = 1024 at boundary sizes; "
+                      "conformance: real collections of every listed size (memory, file-backed, reopened), Len, block visits with "
+                      "nil/identity/reverse/rotate/random manglers, VisitItemsRandom repeated; verdict = ExactlyOnce evaluated by TLC; "
+                      "a case is one enumeration call",
+                      ASSUME_COMMON, exhaustive=False)
